@@ -196,7 +196,7 @@ ev = {
     "verdict": verdict,
     "inconclusive_reasons": problems,
 }
-with open(os.path.join(verif, "evidence", f"{pid}.json"), "w") as f:
+with open(os.path.join(os.environ.get("VERIF_EVIDENCE") or os.path.join(verif, "evidence"), f"{pid}.json"), "w") as f:
     json.dump(ev, f, indent=1, sort_keys=False)
     f.write("\n")
 
